@@ -145,7 +145,12 @@ type fragRun struct {
 	pre     uint64        // size of the boxes before moof (measured on f.Children after the history)
 	post    uint64        // size of the boxes after mdat (measured)
 	all     []Op          // the ops that were run: those of the spec's Emsg / Post fields, then spec.Ops
+	nobs    []string      // after every Encode in the middle of the history (ops N / O): tfhd flags + defaults, tfdt version, trun flags + data offsets
 }
+
+// genOptMid: the generator also puts Encode calls WITH OptimizeTrun (op O) in the middle of the histories. Correspondence only:
+// the model's encode_state / run_hops must reproduce what the real code then does (finding C05-F10 included).
+var genOptMid bool
 
 // pre0 is the list of boxes the spec puts in front of the moof directly
 func (fs *Frag) pre0() []int {
@@ -331,6 +336,10 @@ func buildFrag(fs *Frag) *fragRun {
 				f.EncOptimize = mp4.OptimizeNone
 				var scratch bytes.Buffer
 				err = f.Encode(&scratch)
+			case "O":
+				f.EncOptimize = mp4.OptimizeTrun
+				var scratch bytes.Buffer
+				err = f.Encode(&scratch)
 			}
 		})
 		c := cls(p, err)
@@ -338,7 +347,10 @@ func buildFrag(fs *Frag) *fragRun {
 		if c == 'p' {
 			break
 		}
-		if c == 'o' && op.K != "E" && op.K != "C" && op.K != "N" {
+		if op.K == "N" || op.K == "O" {
+			r.nobs = append(r.nobs, trafEnc(f)) // Encode is a state transformer: what the additions that follow will see
+		}
+		if c == 'o' && op.K != "E" && op.K != "C" && op.K != "N" && op.K != "O" {
 			if op.K == "M" || op.K == "A" || op.K == "S" {
 				r.lazy = append(r.lazy, data...)
 			}
@@ -454,6 +466,8 @@ func opString(o *Op) string {
 		return "C:" + xboxOfCode(int(o.Tr))
 	case "N":
 		return "N"
+	case "O":
+		return "O"
 	case "F", "A":
 		return o.K + ":" + hs(toSample(o.Ss[0])) + ":" + hx.HexU(o.Dts) + ":" + o.Data
 	case "T", "M":
@@ -681,6 +695,10 @@ func genSeg(r *hx.Rng, wild bool) *Seg {
 				case 2:
 					if !wild {
 						fr.Ops = append(fr.Ops, Op{K: "N"})
+					}
+				case 3:
+					if !wild && genOptMid {
+						fr.Ops = append(fr.Ops, Op{K: "O"})
 					}
 				}
 			}
@@ -1108,7 +1126,7 @@ func checkSeg(sg *Seg) *failure {
 }
 
 func opName(k string) string {
-	return map[string]string{"F": "AddFullSample", "T": "AddFullSampleToTrack", "M": "AddSampleToTrack", "A": "AddSample", "S": "AddSamples", "I": "AddSampleInterval", "E": "AddEmsg", "C": "AddChild", "N": "Encode"}[k]
+	return map[string]string{"F": "AddFullSample", "T": "AddFullSampleToTrack", "M": "AddSampleToTrack", "A": "AddSample", "S": "AddSamples", "I": "AddSampleInterval", "E": "AddEmsg", "C": "AddChild", "N": "Encode", "O": "Encode(OptimizeTrun)"}[k]
 }
 
 func cloneSeg(sg *Seg) *Seg {
@@ -1782,6 +1800,25 @@ func trafState(f *mp4.Fragment) string {
 	return sb.String()
 }
 
+// staleSize: the first trun lost its size field in an Encode with OptimizeTrun in the middle of the history (op O) and a
+// sample added afterwards has another size (finding C05-F10): the sizes read back no longer match the data, and beyond
+// the mdat payload the real GetFullSamples slices mdat.Data up to its capacity where the model says panic.
+func staleSize(f *mp4.Fragment) bool {
+	if f == nil || f.Moof == nil || f.Moof.Traf == nil || f.Moof.Traf.Trun == nil {
+		return false
+	}
+	tr, h := f.Moof.Traf.Trun, f.Moof.Traf.Tfhd
+	if tr.HasSampleSize() {
+		return false
+	}
+	for _, s := range tr.Samples {
+		if s.Size != h.DefaultSampleSize {
+			return true
+		}
+	}
+	return false
+}
+
 func trafEnc(f *mp4.Fragment) string {
 	var sb strings.Builder
 	for _, t := range f.Moof.Trafs {
@@ -1817,7 +1854,7 @@ func emitH(id string, sg *Seg, sr *segRun, i int, stats map[string]int) {
 	dec := clean && encStage && !sg.Bad && len(sr.encCls) == len(sr.runs) && sr.encCls[i] == 'o' && sr.file != nil && sr.decCls == 'o' &&
 		len(sr.decodedFrags()) == len(sg.Frags)
 	for _, rr := range sr.runs {
-		if len(rr.modes) > 1 {
+		if len(rr.modes) > 1 || staleSize(rr.f) {
 			dec = false
 		}
 		if rr.modes['l'] && rr.f.Mdat.GetLazyDataSize() != uint64(len(rr.lazy)) {
@@ -1858,7 +1895,7 @@ func emitH(id string, sg *Seg, sr *segRun, i int, stats map[string]int) {
 	ops := make([]string, len(r.all))
 	for k := range r.all {
 		ops[k] = opString(&r.all[k])
-		if r.all[k].K == "E" || r.all[k].K == "C" || r.all[k].K == "N" {
+		if r.all[k].K == "E" || r.all[k].K == "C" || r.all[k].K == "N" || r.all[k].K == "O" {
 			stats["H.op-"+r.all[k].K]++
 		}
 	}
@@ -1868,6 +1905,9 @@ func emitH(id string, sg *Seg, sr *segRun, i int, stats map[string]int) {
 	}
 	var sb strings.Builder
 	sb.WriteString("ops=" + string(r.classes))
+	if len(r.nobs) > 0 {
+		sb.WriteString("|n=" + strings.Join(r.nobs, "/"))
+	}
 	if !r.panicked() {
 		m := f.Mdat
 		sb.WriteString("|lay=" + layoutOf(f))
@@ -2076,7 +2116,7 @@ func emitG(id string, sg *Seg, sr *segRun, stats map[string]int) {
 	// mdat.Data up to its capacity, which the model does not know: it says panic)
 	rd := !sg.Bad
 	for _, rr := range sr.runs {
-		if len(rr.modes) > 1 || (rr.modes['l'] && rr.f.Mdat.GetLazyDataSize() != uint64(len(rr.lazy))) {
+		if len(rr.modes) > 1 || (rr.modes['l'] && rr.f.Mdat.GetLazyDataSize() != uint64(len(rr.lazy))) || staleSize(rr.f) {
 			rd = false
 		}
 	}
@@ -2482,6 +2522,7 @@ func cmdCorr(seed uint64, n int, exh int) {
 	cmdCorrB(hx.NewRng(mixSeed(seed, 0xb05)), n, stats)
 	cmdCorrL(hx.NewRng(mixSeed(seed, 0xe05)), n, stats)
 	r := hx.NewRng(mixSeed(seed, 0xc05c05))
+	genOptMid = true
 	for i := 0; i < n; i++ {
 		sg := genSeg(r, i%3 == 0)
 		sr := runSeg(sg)
